@@ -18,6 +18,7 @@ DECIDED += "; R7 exhaustive scans: Sim::crash, Sim::run_with_hosts and IoUringHo
 DECIDED += "; R8 peers are told: an abandoned, already answered connect resets the peer's stream; a RST wakes a writer parked on flow control (recorded finding D32)"
 DECIDED += '; R2 also: the FIN is remembered as EOF on both read paths (read and peek; shared C02-R3)'
 DECIDED += "; R2 also: Rt::crash cancels the host's tasks on every path, whether or not the main future is still running; R9 crash / bounce drop the tasks with the host's filesystem entered (recorded finding D56); Fs::crash also drops the page cache (shared C07-R2)"
+DECIDED += '; the RST / FIN a dying connection sends is addressed local -> remote (shared C02-R12)'
 DECIDED += "; R5 also: the software factory is called inside the closure handed to rt::with; R10 = C05-R11 (the old incarnation's destructors run inside the *old* runtime); groups survive the drop of one member (shared C09-R12)"
 DECIDED += '; R8 also: a dropped half removes the whole stream entry only after it sent the RST; the entered Fs is put back as it was found (shared C01-R8)'
 DECIDED += '; abandoned connect requests neither count against the backlog nor strand a live request (shared C12-R8 / R9)'
@@ -479,6 +480,7 @@ def run(ctx):
     C02.r2(ctx)   # R4: FIN on drop unless shut down
     C02.r7(ctx)   # R4: RST only for unread data
     C02.r4(ctx)   # the crashed sender's FIN fits the peer's receive queue
+    C02.r12(ctx)  # the RST of a connect abandoned by a crash goes from the connector to the acceptor (source / destination not swapped)
     C12.r4(ctx)   # a half-open connect is released when the crash drops its future
     C12.r8(ctx)   # requests abandoned by a crashed connector do not count against the backlog (a panic in step takes every host down)
     C12.r9(ctx)   # ... and do not strand a live request behind them: accept parks only on an empty queue
